@@ -78,6 +78,58 @@ SPECIALS_PSD = ["sum_bcast_dense", "sum_expand_dense", "dense_expand", "diag_exp
                 "lowrank_expand"]
 
 
+# ---- family I: entry points with several outputs / cache by-products x which outputs the loss uses
+MULTI = [("diag_lanczos", "matfun"), ("diag_lanczos", "evecs_only"), ("diag_lanczos", "evals_only"), ("diag_lanczos", "all"),
+         ("diag_symeig", "matfun"), ("diag_symeig", "evecs_only"), ("diag_default", "all"), ("eigh", "matfun"),
+         ("eigh", "evecs_only"), ("eigh", "all"), ("svd", "matfun"), ("svd", "all"),
+         ("root_inv_root", "both"), ("root_inv_root", "root_only"), ("root_inv_root", "inv_only"), ("root_inv_root", "rev_both"),
+         ("iql_split", "iq_only"), ("iql_split", "ld_only"), ("chol_seq", "all"), ("chol_seq", "later_only"),
+         ("chol_seq", "chol_only")]
+SPECTRAL = {"diag_lanczos", "diag_symeig", "diag_default", "eigh", "svd"}
+GAPS = ["1e-2", "5e-4", "1e-4"]          # relative gap (to the largest eigenvalue) of the closest eigenvalue pair
+GAP_CLS = ["dense", "sum", "cmul", "added_diag", "kron1", "root"]
+MULTI_ROOTS = ["Dense", "Toeplitz", "Sum", "AddedDiag", "Kron", "ConstantMul", "Diag", "SumBatch"]
+
+
+def _fspec(x):
+    return {"shape": list(x.shape), "data": [float(v) for v in x.reshape(-1).tolist()]}
+
+
+def gap_expr(rng, name, batch):
+    """positive definite 4 x 4 operators with a prescribed spectrum: one pair of distinct eigenvalues at relative distance
+    `gap` (of the largest eigenvalue), all others well separated; random orthogonal eigenvectors; float leaves"""
+    _, g, cls = name.split(":")
+    g = float(g)
+    mats, roots = [], []
+    for bi in range(2 if batch else 1):
+        sv = [3.0, 3.0 * (1 - g), 1.9, 1.1] if bi == 0 else [2.6, 1.5, 1.5 - 2.6 * g, 0.7]
+        M = torch.tensor([[rng.uniform(-1, 1) for _ in range(4)] for _ in range(4)], dtype=torch.float64)
+        Q, _ = torch.linalg.qr(M)
+        S = torch.tensor(sv, dtype=torch.float64)
+        A = Q @ torch.diag(S) @ Q.mT
+        mats.append((A + A.mT) / 2)
+        roots.append(Q * S.sqrt())
+    A = torch.stack(mats) if batch else mats[0]
+    R = torch.stack(roots) if batch else roots[0]
+    b = [2] if batch else []
+    if cls == "dense":
+        return {"cls": "Dense", "t": _fspec(A)}
+    if cls == "sum":
+        A2 = ob.tt(ob.rand_t(rng, b + [4, 4], -1, 1)) * 0.25
+        A2 = (A2 + A2.mT) / 2
+        return {"cls": "Sum", "ops": [{"cls": "Dense", "t": _fspec(A - A2)}, {"cls": "Dense", "t": _fspec(A2)}]}
+    if cls == "cmul":
+        return {"cls": "ConstantMul", "base": {"cls": "Dense", "t": _fspec(A / 2.0)}, "c": _fspec(torch.full(b, 2.0, dtype=torch.float64))}
+    if cls == "added_diag":
+        return {"cls": "AddedDiag", "base": {"cls": "Dense", "t": _fspec(A - 0.5 * torch.eye(4, dtype=torch.float64))},
+                "diag": {"cls": "ConstantDiag", "c": _fspec(torch.full(b + [1], 0.5, dtype=torch.float64)), "n": 4}}
+    if cls == "kron1":
+        return {"cls": "Kron", "ops": [{"cls": "Dense", "t": _fspec(A)}, {"cls": "Dense", "t": _fspec(torch.ones(b + [1, 1], dtype=torch.float64))}]}
+    if cls == "root":
+        return {"cls": "Root", "root": _fspec(R)}
+    raise ValueError(name)
+
+
 def _cell(part, root, child, psd, batch, fn, kind, rg, chol0, m=3, special=None, wrap=None):
     return {"part": part, "root": root, "child": child, "psd": bool(psd), "batch": list(batch), "m": m,
             "fn": fn, "kind": kind, "rg": rg, "chol0": chol0, "special": special, "wrap": wrap}
@@ -195,6 +247,22 @@ def grid(quick):
             seen_k.add((fn, kind))
             cells.append(_cell("H", root, (rot(LEAF_CHILDREN) if _takes_child(root) else None), False, [2, 3], fn, kind,
                                "all" if quick else "rot", "no", m=2))
+    # ---- I: multi-output entry points and sequences on one object x every choice of outputs the loss depends on;
+    # spectra with a close-but-distinct eigenvalue pair (float leaves) and ordinary integer instances
+    for gi, g in enumerate(GAPS):
+        for fi, (fn, kind) in enumerate(MULTI):
+            clss = [GAP_CLS[(gi + fi) % len(GAP_CLS)]] if quick else GAP_CLS
+            if quick and fn in ("diag_lanczos", "diag_default") and "dense" not in clss:
+                clss = ["dense"] + clss      # Diagonalization.backward of the pinned tree only serves a single dense leaf
+            for ci, cl in enumerate(clss):
+                for bt in ([[] if (gi + fi) % 3 else [2]] if quick else [[], [2]]):
+                    cells.append(_cell("I", "special", None, True, bt, fn, kind, "all", chol_mode(fn), m=4,
+                                       special="gap:%s:%s" % (g, cl)))
+    for ri, root in enumerate(MULTI_ROOTS):
+        fks = [MULTI[(ri * 5 + j * 8) % len(MULTI)] for j in range(3)] if quick else MULTI
+        for j, (fn, kind) in enumerate(fks):
+            ch = rot(PSD_LEAF_CHILDREN) if _takes_child(root) else None
+            cells.append(_cell("I", root, ch, True, B[(ri + j) % len(B)], fn, kind, "all", chol_mode(fn)))
     # ---- G: witnesses of the pinned tree's defects (dedicated cells; the seed only picks values)
     for s in G_SPECIALS:
         kinds = {"toeplitz_mid1": [("matmul", "batched"), ("matmul", "bcast3")],
@@ -422,6 +490,8 @@ def gen_expr(rng, cell):
         c = ob.gen(rng, child, batch=inner_batch, m=m, psd=psd, depth=1)
         return wrap_expr(rng, cell["wrap"], c, psd)
     sp = cell.get("special")
+    if sp and sp.startswith("gap:"):
+        return gap_expr(rng, sp, batch)
     if sp and sp.startswith("psd_"):
         return psd_special(rng, sp, batch, m)
     if sp:
@@ -457,7 +527,7 @@ def validate(e, cell, fn):
         return "too large"
     if fn in L.SYM_FNS:
         Dd = D.detach()
-        if float((Dd - Dd.mT).abs().max()) > 0:
+        if float((Dd - Dd.mT).abs().max()) > 1e-13 * max(1.0, float(Dd.abs().max())):
             return "not symmetric"
         ev = torch.linalg.eigvalsh(Dd)
         if float(ev.min()) <= 0.05 or float(ev.max() / ev.min().clamp_min(1e-12)) > 2e3:
@@ -546,6 +616,14 @@ def make_case(cell, seed):
                 if cell["kind"] == "vec" and len(shape) > 2 and cell["fn"] in L.SYM_FNS:
                     raise L.Ungenerated("needs no batch: 1-D right-hand side with a batched operator (convention is C05's)")
                 fa = L.gen_fn_args(rng, cell["fn"], cell["kind"], shape)
+                if cell["fn"] in SPECTRAL:
+                    with torch.no_grad():
+                        ev = torch.linalg.eigvalsh(L.Leaves(e).dense())
+                    dist = (ev.unsqueeze(-1) - ev.unsqueeze(-2)).abs() + torch.eye(ev.shape[-1], dtype=ev.dtype) * 1e9
+                    gap = float((dist.flatten(-2).min(-1)[0] / ev.abs().max(-1)[0]).min())
+                    if gap < 1e-6:
+                        raise L.Ungenerated("needs distinct eigenvalues: eigenvector derivatives are undefined at repeated ones")
+                    fa["gap"] = gap
                 return {"expr": e, "fn": cell["fn"], "fn_args": fa, "seed": s0 % (2 ** 31)}
             last = why
         except L.Ungenerated as ex:
